@@ -515,4 +515,124 @@ theorem mtPrealloc_lt (n : Int) : mtPrealloc n < 1024 := by
     omega
   · decide
 
+/-! ### Decoding is injective: what was accepted re-encodes to exactly the bytes consumed -/
+
+theorem decodeMessage_inv {b r : Bytes} {m : Message} (h : decodeMessage b = .ok (m, r)) :
+    ∃ x, encodeMessage m = .ok x ∧ x ++ r = b ∧ m.bytes = m.body.length ∧ m.body.length ≤ 1048576 := by
+  unfold decodeMessage at h
+  cases h1 : getInt64 b with
+  | error e => simp [h1] at h
+  | ok p1 =>
+    obtain ⟨id, r1⟩ := p1
+    simp only [h1] at h
+    cases h2 : getInt32 r1 with
+    | error e => simp [h2] at h
+    | ok p2 =>
+      obtain ⟨seq, r2⟩ := p2
+      simp only [h2] at h
+      cases h3 : getInt32 r2 with
+      | error e => simp [h3] at h
+      | ok p3 =>
+        obtain ⟨n, r3⟩ := p3
+        simp only [h3] at h
+        cases hv : msgLenInvalidDec n with
+        | true => simp [hv] at h
+        | false =>
+          simp only [hv, Bool.false_eq_true, if_false] at h
+          cases h4 : getN n.toNat r3 with
+          | error e => simp [h4] at h
+          | ok p4 =>
+            obtain ⟨body, r4⟩ := p4
+            simp only [h4] at h
+            injection h with h; injection h with hm hr
+            subst hm hr
+            obtain ⟨e4, l4⟩ := getN_inv h4
+            have hn : 0 ≤ n ∧ n ≤ 1048576 := by
+              constructor
+              · apply Int.not_lt.mp; intro hc
+                have := (msgLenInvalidDec_iff n).mpr (Or.inl hc); rw [hv] at this; cases this
+              · apply Int.not_lt.mp; intro hc
+                have := (msgLenInvalidDec_iff n).mpr (Or.inr hc); rw [hv] at this; cases this
+            have hb : n = (body.length : Int) := by omega
+            have hbl : body.length ≤ 1048576 := by omega
+            refine ⟨_, encodeMessage_ok ⟨id, seq, n, body⟩ hb hbl, ?_, hb, hbl⟩
+            simp only [List.append_assoc]
+            rw [e4, getInt32_inv h3, getInt32_inv h2, getInt64_inv h1]
+
+theorem decodeMessages_inv (n : Nat) {b r : Bytes} {ms : List Message} (h : decodeMessages n b = .ok (ms, r)) :
+    ∃ x, encodeMessages ms = .ok x ∧ x ++ r = b ∧ ms.length = n := by
+  induction n generalizing b ms with
+  | zero =>
+    simp only [decodeMessages] at h
+    injection h with h; injection h with h1 h2
+    subst h1 h2
+    exact ⟨[], rfl, rfl, rfl⟩
+  | succ n ih =>
+    simp only [decodeMessages] at h
+    cases h1 : decodeMessage b with
+    | error e => simp [h1] at h
+    | ok p =>
+      obtain ⟨m, r1⟩ := p
+      simp only [h1] at h
+      cases h2 : decodeMessages n r1 with
+      | error e => simp [h2] at h
+      | ok q =>
+        obtain ⟨ms', r2⟩ := q
+        simp only [h2] at h
+        injection h with h; injection h with hm hr
+        subst hm hr
+        obtain ⟨x, hx1, hx2, _, _⟩ := decodeMessage_inv h1
+        obtain ⟨y, hy1, hy2, hy3⟩ := ih h2
+        refine ⟨x ++ y, by simp only [encodeMessages, hx1, hy1], ?_, by simp [hy3]⟩
+        rw [List.append_assoc, hy2, hx2]
+
+theorem decodeContainer_inv {b r : Bytes} {ms : List Message} (h : decodeContainer b = .ok (ms, r))
+    (hpos : ms ≠ [] ∨ ∃ t, b = putU32 containerID ++ putInt32 0 ++ t) :
+    ∃ x, encodeContainer ms = .ok x ∧ x ++ r = b := by
+  unfold decodeContainer at h
+  cases h1 : consumeID containerID b with
+  | error e => simp [h1] at h
+  | ok p =>
+    obtain ⟨u, r1⟩ := p
+    simp only [h1] at h
+    cases h2 : getInt32 r1 with
+    | error e => simp [h2] at h
+    | ok q =>
+      obtain ⟨n, r2⟩ := q
+      simp only [h2] at h
+      obtain ⟨y, hy1, hy2, hy3⟩ := decodeMessages_inv n.toNat h
+      have hn : n = (ms.length : Int) := by
+        rcases hpos with hne | ⟨t, ht⟩
+        · have hl : ms.length ≠ 0 := fun h0 => hne (List.length_eq_zero_iff.mp h0)
+          have hy3' : ms.length = n.toNat := hy3
+          omega
+        · rw [ht, List.append_assoc, consumeID_putU32 _ _ containerID_lt] at h1
+          injection h1 with h1; injection h1 with _ hr1
+          rw [← hr1, getInt32_putInt32 0 t (by omega)] at h2
+          injection h2 with h2; injection h2 with hn0 _
+          rw [← hn0] at hy3
+          have hl0 : ms.length = 0 := by simpa using hy3
+          rw [← hn0]; omega
+      refine ⟨putU32 containerID ++ putInt32 ms.length ++ y, by simp only [encodeContainer, hy1], ?_⟩
+      rw [List.append_assoc, List.append_assoc, hy2, ← hn, getInt32_inv h2, consumeID_inv h1]
+
+theorem decodeResult_inv {b r : Bytes} {x : Result} (h : decodeResult b = .ok (x, r)) :
+    encodeResult x = b ∧ r = [] := by
+  unfold decodeResult at h
+  cases h1 : consumeID resultID b with
+  | error e => simp [h1] at h
+  | ok p =>
+    obtain ⟨u, r1⟩ := p
+    simp only [h1] at h
+    cases h2 : getInt64 r1 with
+    | error e => simp [h2] at h
+    | ok q =>
+      obtain ⟨id, r2⟩ := q
+      simp only [h2] at h
+      injection h with h; injection h with hx hr
+      subst hx hr
+      refine ⟨?_, rfl⟩
+      unfold encodeResult putRaw
+      rw [List.append_assoc, getInt64_inv h2, consumeID_inv h1]
+
 end TdModel.C22
